@@ -134,6 +134,25 @@ let () =
                                   { i_code = c; i_line = l; i_col = co; i_msg = nat_of_int i }) in
          let res = if kind = 0 then List.fold_left add_issue [] xs else finalize (List.fold_left err_add [] xs) in
          print_endline (String.concat ";" (List.map (fun x -> Printf.sprintf "%d %d %d %d" (int_of_nat x.i_code) (int_of_nat x.i_line) (int_of_nat x.i_col) (int_of_nat x.i_msg)) res))
+       | "nav" ->
+         (* v text npos (line col)* : leaf stepping for every leaf and position lookup on the model's own recovering parse *)
+         let v = nextn () in let s = str () in
+         let np = next () in
+         let poss = List.init np (fun _ -> let l = nextn () in let c = nextn () in (l, c)) in
+         (match parse_text v Recover N0 s with
+          | OTree t ->
+            let ps p = String.concat "." (List.map (fun i -> string_of_int (int_of_nat i)) p) in
+            let opt = function None -> "None" | Some p -> ps p in
+            let leaves = leaf_paths t in
+            let a = String.concat ";" (List.map (fun p -> ps p ^ ">" ^ opt (get_next_leaf t p) ^ "<" ^ opt (get_previous_leaf t p)) leaves) in
+            let e = nav_end t in
+            let b = String.concat ";" (List.concat (List.map (fun (l, c) ->
+              List.map (fun incl ->
+                let inside = pos_leb (n_of_int 1, N0) (l, c) && pos_leb (l, c) e in
+                Printf.sprintf "%d,%d,%d=%s" (int_of_n l) (int_of_n c) (if incl then 1 else 0)
+                  (if not inside then "ValueError" else match nav_lookup t (l, c) incl with FLeaf p -> ps p | FNone -> "None" | FFuel -> "FUEL")) [true; false]) poss)) in
+            print_endline ("F:" ^ ps (first_leaf_path t) ^ " L:" ^ ps (last_leaf_path t) ^ "|" ^ a ^ "|" ^ b)
+          | _ -> print_endline "ERR")
        | "plans" ->
          let v = nextn () in
          print_endline (String.concat "|" (List.map (fun (q, tr) ->
